@@ -106,7 +106,8 @@ def mime_html(ctype_sniffed):
 def run_seed(run, cfg, site, seed_url, seed_id="seed", hops=0, max_passes=12, dc_match=lambda raw: False, regex_match=lambda canon: False, keep_seen=False):
     """returns (final action, tree, trace) where trace lists per pass what happened"""
     h = run.h
-    cfg_impl = dict(cfg, op="cfg", resetSeen=not keep_seen)
+    # the implementation derives the default excluded hosts itself (GenerateCrawlConfig); the model gets the effective list
+    cfg_impl = dict(cfg, op="cfg", resetSeen=not keep_seen, excludeHosts=[h for h in cfg["excludeHosts"] if h not in DEFAULT_EXCLUDED])
     trace = {"passes": 0, "requests": [], "finish": None, "trees": []}
     # the model gets the regex / domains-crawl verdicts as sets, filled lazily: we need them before `pre`/`post`,
     # so we send cfg to the model again whenever new URLs show up (cfg is stateless on the model side except seen)
@@ -242,8 +243,9 @@ ASSET_POOL = ["/img/a.png", "b.css", "http://cdn.example/lib.js", "http://archiv
               "http://127.0.0.1/y.png", "http://nodot/z.png", "ftp://files.example/f.bin", "data:image/png;base64,AAAA", "javascript:void(0)",
               "mailto:x@example.com", "http://cdn.example", "http://cdn.example/", "//img.site.example/p.jpg", "../up/c.gif", "?v=2",
               "http://excluded.example/e.png", "/private/secret.png", "/files/big.zip", "http://bücher.example/ü.png", "http://[bad/x.png",
-              "/red/1", "/loop/a", "/api/data.json", "/gone.png", "/down.png", "/img/a.png?x=1&y=2", "http://web.archive-it.org/x.png",
-              "http://dc.example/asset.png", "/same"]
+              "/red/1", "/loop/a", "/to-local", "/api/data.json", "/gone.png", "/down.png", "/img/a.png?x=1&y=2", "http://web.archive-it.org/x.png",
+              "http://dc.example/asset.png", "/same", "//localhost/x.png", "//127.0.0.1:8080/y.png", "//intranet/z.png", "//cdn.example/rel.js",
+              "//archive.org/services/img/x", "https://LOCALHOST/u.png", "http://site.example./dot.png", "//user:pw@localhost/p.png"]
 OUTLINK_POOL = ["/page2", "http://other.example/", "http://dc.example/in", "http://sub.dc.example/deep", "/private/page", "http://archive.org/web/",
                 "mailto:y@example.com", "http://other.example/doc.pdf", "/page3?a=1&b=2", "#top"]
 
@@ -272,6 +274,7 @@ def gen_site(r, base="http://site.example"):
         else:
             s.add(base + "/red/%d" % k, ctype="image/png", body="\x89PNG\r\n\x1a\n" + "r" * 5, kind="bin")
             break
+    s.add(base + "/to-local", status=302, location=r.choice(["//localhost/x", "http://127.0.0.1/x", "//intranet/x", "ftp://files.example/x", "//archive.org/x"]))
     s.add(base + "/loop/a", status=302, location="/loop/b")
     s.add(base + "/loop/b", status=302, location="/loop/a")
     # assets of assets: JSON documents that reference further resources
@@ -286,7 +289,7 @@ def gen_site(r, base="http://site.example"):
 def gen_cfg(r):
     cfg = {"includeHosts": [], "includeStrings": [], "excludeHosts": list(DEFAULT_EXCLUDED), "excludeStrings": [], "regexes": [],
            "disableAssets": r.random() < 0.08, "maxHops": r.choice([0, 0, 1, 2]), "maxRedirect": r.choice([0, 1, 2, 3, 5, 20]),
-           "disableSeencheck": False, "domainsCrawl": []}
+           "disableSeencheck": False, "domainsCrawl": [], "exclusionFileTrailingNewline": r.random() < 0.5}
     k = r.random()
     if k < 0.15:
         cfg["includeHosts"] = [r.choice(["site.example", "cdn.example", "example"])]
